@@ -140,7 +140,7 @@ let after_colon (tok : string) : string =
   | Some i -> String.sub tok (i + 1) (String.length tok - i - 1)
   | None -> ""
 
-let parse_event (tok : string) : event =
+let parse_base_event (tok : string) : event =
   let nn s = n_of_int (int_of_string s) in
   let tag = match String.index_opt tok ':' with Some i -> String.sub tok 0 i | None -> tok in
   let rest = after_colon tok in
@@ -161,6 +161,18 @@ let parse_event (tok : string) : event =
   | "RR" -> ERunReturn
   | _ -> failwith ("event " ^ tok)
 
+(* liveness tokens of the mock servers / the sender on top of the protocol events *)
+let parse_event (tok : string) : gevent =
+  let nn s = n_of_int (int_of_string s) in
+  let tag = match String.index_opt tok ':' with Some i -> String.sub tok 0 i | None -> tok in
+  let rest = after_colon tok in
+  match tag with
+  | "CX" -> GECtxSeen (nn rest)
+  | "RX" -> GERunRet (nn rest)
+  | "XS" -> GESelfExit (nn rest)
+  | "PD" -> GESent
+  | _ -> GE (parse_base_event tok)
+
 let pc_name = function
   | PIdle -> "idle" | PStop _ -> "stop" | PDelay _ -> "delay" | PStart _ -> "start"
   | PWait _ -> "wait" | PFailStop _ -> "failstop" | PFin -> "fin" | PRet -> "ret"
@@ -179,19 +191,21 @@ let runner fuel =
             let toks = List.filter (fun t -> t <> "") toks in
             let t = List.map parse_event toks in
             evs := !evs + List.length t;
-            let (states, ok) = accept (delay = "1") f t in
+            let (states, ok) = gaccept (delay = "1") f t in
             let k = List.length states in
             if k > !maxset then maxset := k;
             if not ok then (incr inc; Printf.printf "INCONCLUSIVE %s\n" name)
             else if states = [] then begin
               incr rej;
-              let d = int_of_nat (accepted_prefix (delay = "1") f t) in
+              let d = int_of_nat (gaccepted_prefix (delay = "1") f t) in
               Printf.printf "REJECT %s depth=%d len=%d event=%s\n" name d (List.length t)
                 (if d < List.length toks then List.nth toks d else "<end>")
             end else begin
               incr acc;
+              (* theorem instance (C16_live_servers_run as a boolean): never fails unless extraction / driver are wrong *)
+              if not (List.for_all live_okb states) then Printf.printf "MODELPROP %s live_servers_run\n" name;
               Printf.printf "ACCEPT %s states=%d pcs=%s\n" name k
-                (String.concat "," (List.sort_uniq compare (List.map (fun s -> pc_name s.s_pc) states)))
+                (String.concat "," (List.sort_uniq compare (List.map (fun g -> pc_name g.g_s.s_pc) states)))
             end
           with Failure msg | Invalid_argument msg -> incr bad; Printf.printf "BADTRACE %s %s\n" name msg)
        | _ -> ()
